@@ -1086,3 +1086,342 @@ def run_d(ctx):
     for it in items[:: max(1, len(items) // 3)][:3]:
         ctx.sample({"engine": "D", "gate": it[0], "class": it[1], "spec": it[2]})
     return {"executions": ctx.stats["D.executions"], "nontrivial": len(nontrivial), "items": len(items)}
+
+
+# ======================================================================================
+# 7. Engine A: membrane histories under a virtual clock
+# ======================================================================================
+
+LEARNABLE = [("Xyzzy Token", False), (r"plu+gh\s+\d+", True)]
+CUSTOM = [(r"frob(?:nitz|ozz)", True, "DANGEROUS")]
+_LOCKS = (type(__import__("threading").Lock()), type(__import__("threading").RLock()))
+
+
+def a_inputs():
+    """benign, witnesses of two built-ins of different levels (one case-perturbed), witnesses of the
+    learnable patterns and of the custom signature - all derived from the signature tables"""
+    b = builtin_membrane()
+    crit = next(p for p, r, lv in b if lv == "CRITICAL" and not r)
+    susp = next(p for p, r, lv in b if lv == "SUSPICIOUS" and not r)
+    w1 = witnesses(*LEARNABLE[0])[0]
+    w2 = witnesses(*LEARNABLE[1])[-1]
+    w3 = witnesses(CUSTOM[0][0], True)[-1]
+    return ["hello world", f"Please {crit} ok", susp.upper(), f"say {w1.lower()} now", w2.upper() + "!",
+            f"the {w3.swapcase()} co"]
+
+
+class RefMembrane:
+    """Reference state written from the property text: active signatures, inputs blocked by a
+    scan before, admission times inside the rate window."""
+
+    def __init__(self, threshold, adaptive, rate_limit):
+        self.threshold = LEVELS.index(threshold)
+        self.adaptive = adaptive
+        self.rate_limit = rate_limit
+        self.custom = []      # [(RefSig, origin)]
+        self.learned = {}     # pattern -> (RefSig, origin)
+        self.blocked_before = set()
+        self.admitted = []
+
+    def copy(self):
+        c = RefMembrane.__new__(RefMembrane)
+        c.threshold, c.adaptive, c.rate_limit = self.threshold, self.adaptive, self.rate_limit
+        c.custom = list(self.custom)
+        c.learned = dict(self.learned)
+        c.blocked_before = set(self.blocked_before)
+        c.admitted = list(self.admitted)
+        return c
+
+    def active(self):
+        return [(s, "builtin") for s in ref_sigs("M")[0]] + self.custom + list(self.learned.values())
+
+    def canon(self, now):
+        return (self.threshold, tuple(s.ident for s, _ in self.custom),
+                tuple(sorted((p, s.ident, o) for p, (s, o) in self.learned.items())),
+                tuple(sorted(self.blocked_before)), tuple(sorted(now - t for t in self.admitted if now - t < 60)))
+
+
+_SIGCACHE = {}
+
+
+def _refsig(p, r, lv):
+    k = (p, r, lv)
+    if k not in _SIGCACHE:
+        _SIGCACHE[k] = RefSig(p, r, LEVELS.index(lv))
+    return _SIGCACHE[k]
+
+
+def clone_membrane(m):
+    t = Membrane(silent=True)
+    for k, v in m.__dict__.items():
+        if isinstance(v, _LOCKS):
+            continue
+        if isinstance(v, list):
+            v = list(v)
+        elif isinstance(v, dict):
+            v = dict(v)
+        elif isinstance(v, set):
+            v = set(v)
+        t.__dict__[k] = v
+    return t
+
+
+class AState:
+    __slots__ = ("root", "clock", "mem", "ref", "last")
+
+
+class AModel:
+    def __init__(self, tier):
+        self.tier = tier
+        self.inputs = a_inputs()
+
+    def roots(self):
+        r = [[None, "DANGEROUS", True], [0, "DANGEROUS", True], [1, "DANGEROUS", True], [2, "DANGEROUS", True],
+             [None, "SUSPICIOUS", False]]
+        if self.tier != "quick":
+            r += [[2, "CRITICAL", True], [1, "SAFE", True]]
+        return r
+
+    def build(self, root):
+        st = AState()
+        st.root = tuple(root)
+        rate, th, adaptive = root
+        st.clock = vclock.VClock()
+        vclock.use(st.clock)
+        st.mem = {"A": Membrane(threshold=ThreatLevel[th], enable_adaptive=adaptive, rate_limit=rate, silent=True),
+                  "B": Membrane(threshold=ThreatLevel.DANGEROUS, silent=True)}
+        st.ref = {"A": RefMembrane(th, adaptive, rate), "B": RefMembrane("DANGEROUS", True, None)}
+        st.last = ("init",)
+        return st
+
+    def clone(self, st):
+        c = AState()
+        c.root = st.root
+        c.clock = vclock.VClock()
+        c.clock._now = st.clock._now
+        c.clock._t0 = st.clock._t0
+        c.mem = {k: clone_membrane(m) for k, m in st.mem.items()}
+        c.ref = {k: r.copy() for k, r in st.ref.items()}
+        c.last = st.last
+        return c
+
+    def ops(self, st):
+        o = [("filter", "A", i) for i in range(len(self.inputs))]
+        o += [("filter", "B", 3), ("filter", "B", 4)]
+        for pi in range(len(LEARNABLE)):
+            o += [("learn", "A", pi, "SUSPICIOUS"), ("learn", "A", pi, "CRITICAL"), ("forget", "A", pi)]
+        o += [("learn", "B", 1, "DANGEROUS"), ("learn", "B", 0, "CRITICAL")]
+        if not st.ref["A"].custom:
+            o.append(("add", "A", 0))
+        o += [("threshold", "A", lv) for lv in LEVELS]
+        o += [("xfer", "A", "B"), ("xfer", "B", "A")]
+        if st.root[0] is not None:
+            o += [("advance", 1), ("advance", 59), ("advance", 61)]
+        return o
+
+    def canon(self, st):
+        now = st.clock.time()
+        impl = []
+        for k in ("A", "B"):
+            m = st.mem[k]
+            impl.append((
+                m.threshold.value,
+                tuple((s.pattern, s.is_regex, s.level.value) for s in m.signatures[len(Membrane.INNATE_SIGNATURES):]),
+                tuple(sorted((p, s.pattern, s.is_regex, s.level.value) for p, s in m._learned_patterns.items())),
+                tuple(sorted(m._blocked_hashes)),
+                tuple(sorted(now - t for t in m._request_times if now - t < 60)) if m.rate_limit is not None else (),
+            ))
+        return (tuple(impl), st.ref["A"].canon(now), st.ref["B"].canon(now))
+
+    def observe(self, st):
+        return repr(st.last)
+
+    def step(self, st, op):
+        vclock.use(st.clock)
+        kind = op[0]
+        if kind == "advance":
+            st.clock.advance(op[1])
+            st.last = ("advance",)
+            return []
+        who = op[1]
+        m, ref = st.mem[who], st.ref[who]
+        try:
+            if kind == "filter":
+                return self._filter(st, m, ref, self.inputs[op[2]])
+            if kind == "learn":
+                p, r = LEARNABLE[op[2]]
+                m.learn_threat(p, ThreatLevel[op[3]], "learned", is_regex=r)
+                if ref.adaptive:
+                    ref.learned[p] = (_refsig(p, r, op[3]), "learned")
+            elif kind == "forget":
+                p, r = LEARNABLE[op[2]]
+                m.forget_threat(p)
+                ref.learned.pop(p, None)
+            elif kind == "add":
+                p, r, lv = CUSTOM[op[2]]
+                m.add_signature(ThreatSignature(p, ThreatLevel[lv], "custom", is_regex=r))
+                ref.custom.append((_refsig(p, r, lv), "added"))
+            elif kind == "threshold":
+                m.set_threshold(ThreatLevel[op[2]])
+                ref.threshold = LEVELS.index(op[2])
+            elif kind == "xfer":
+                dst, rdst = st.mem[op[2]], st.ref[op[2]]
+                dst.import_antibodies(m.export_antibodies())
+                for p, (s, _o) in ref.learned.items():
+                    rdst.learned[p] = (s, "imported")
+            else:
+                raise AssertionError(op)
+        except AssertionError:
+            raise
+        except Exception as e:  # noqa: BLE001
+            return [(f"raises:{raise_site(e)}:{type(e).__name__}", f"{kind} raised {type(e).__name__}: {e}")]
+        st.last = (kind,)
+        return []
+
+    def _filter(self, st, m, ref, x):
+        n0 = len(m.get_audit_log())
+        res = m.filter(Signal(x))
+        now = st.clock.time()
+        v = []
+        log = m.get_audit_log()
+        if len(log) != n0 + 1:
+            v.append((f"membrane:audit-delta:{len(log) - n0}",
+                      f"audit trail grew by {len(log) - n0} (expected exactly 1) for one filter call"))
+        elif log[-1].allowed != res.allowed or log[-1].audit_hash != res.audit_hash:
+            v.append(("membrane:audit-entry-differs", "last audit entry is not the returned decision"))
+        shortcut = (not res.allowed) and res.threat_level.value == 3 and not res.matched_signatures
+        hits = [(s, o) for s, o in ref.active() if s.matches(x)]
+        if res.allowed:
+            for s, o in hits:
+                if s.level >= ref.threshold:
+                    v.append((f"membrane:allowed-despite-match:{_kind(s)}:{o}",
+                              f"threshold {LEVELS[ref.threshold]}: {x!r} allowed although active {o} {_kind(s)} "
+                              f"signature {s.pattern!r} (level {LEVELS[s.level]}) matches"))
+                    break
+            if x in ref.blocked_before:
+                v.append(("membrane:blocked-before-now-allowed",
+                          f"{x!r} was blocked by a signature scan earlier in this membrane and is allowed now"))
+            if ref.rate_limit is not None:
+                ref.admitted = [t for t in ref.admitted if t > now - 60]
+                if len(ref.admitted) + 1 > ref.rate_limit:
+                    v.append(("membrane:rate-limit-exceeded",
+                              f"{len(ref.admitted) + 1} inputs admitted within the last 60 s, rate_limit={ref.rate_limit}"))
+                ref.admitted.append(now)
+        if not shortcut:
+            got = sorted((g.pattern, bool(g.is_regex), g.level.value) for g in res.matched_signatures)
+            exp = sorted(s.ident for s, _ in hits)
+            if got != exp:
+                missing = [e for e in exp if e not in got]
+                tag = "missing" if missing else "extra"
+                one = (missing or [g for g in got if g not in exp] or got)[0]
+                origin = next((o for s, o in ref.active() if s.ident == one), "unknown")
+                v.append((f"membrane:matched-set-{tag}:{'regex' if one[1] else 'substring'}:{origin}",
+                          f"filter({x!r}) reported {got}, reference matches {exp}"))
+            ref_max = max([s.level for s, _ in hits], default=0)
+            if res.threat_level.value != ref_max:
+                v.append(("membrane:threat-level-not-max",
+                          f"filter({x!r}) threat_level {res.threat_level.name}, max over matching is {LEVELS[ref_max]}"))
+            if not res.allowed:
+                ref.blocked_before.add(x)
+        st.last = ("filter", res.allowed, res.threat_level.value, shortcut, len(res.matched_signatures))
+        return v
+
+
+def a_selfcheck(model):
+    """clone must be observationally equal to rebuilding by replay (a field added later cannot escape)"""
+    hist = [("learn", "A", 1, "CRITICAL"), ("filter", "A", 4), ("add", "A", 0), ("advance", 59), ("filter", "A", 1),
+            ("xfer", "A", "B"), ("filter", "B", 4), ("threshold", "A", "CRITICAL"), ("filter", "A", 5)]
+    for root in model.roots()[:3]:
+        a = model.build(root)
+        for i, op in enumerate(hist):
+            if op[0] == "advance" and root[0] is None:
+                continue
+            model.step(a, op)
+            b = model.clone(a)
+            if model.canon(a) != model.canon(b):
+                raise common.HarnessError(f"clone differs from original after {hist[:i + 1]}")
+            for probe in (("filter", "A", 4), ("filter", "A", 0)):
+                c1, c2 = model.clone(a), model.clone(b)
+                if model.step(c1, probe) != model.step(c2, probe) or c1.last != c2.last:
+                    raise common.HarnessError("clone not observationally equal to original")
+        plain = set(a.mem["A"].__dict__) - {"_rate_lock"}
+        copied = set(model.clone(a).mem["A"].__dict__) - {"_rate_lock"}
+        if plain != copied:
+            raise common.HarnessError(f"clone misses fields {plain ^ copied}")
+
+
+def run_a(ctx):
+    model = AModel(ctx.tier)
+    a_selfcheck(model)
+    depth = 4 if ctx.tier == "quick" else 6
+    res = explore.explore(model, ctx, depth, max_states=None if ctx.tier == "quick" else 1_500_000)
+    return res
+
+
+# ======================================================================================
+# 8. run / replay
+# ======================================================================================
+
+def run(ctx):
+    sys.setrecursionlimit(max(sys.getrecursionlimit(), 1000))
+    d = run_d(ctx)
+    a = run_a(ctx)
+    execs = d["executions"] + a["transitions"]
+    ctx.coverage.update(
+        states=a["states"],
+        transitions=a["transitions"],
+        traces_validated_against_impl=execs,
+        evaluations=execs,
+        distinct_nontrivial=d["nontrivial"] + a["states"],
+        rule="D: every signature of both gates (built-in tables read at run time + generated custom/learned/imported "
+             "ones, substring and regex, every level/severity) -> witnesses from the re parse tree (each alternation "
+             "branch, min and 2x repetitions) x perturbations (case variants incl. single flips, embedding with 3 "
+             "separators, control chars, lone surrogates, 100k+ lengths) + hostile structural inputs; each run on a "
+             "fresh gate for every threshold x installation channel x validator set. distinct non-trivial D case = "
+             "distinct (gate, content) that matches >=1 signature or must be rejected by a validator. A: BFS over "
+             "membrane histories (2 membranes, virtual clock); distinct = canonical state",
+        exhaustive=not a["capped"],
+        depth_completed=a["depth_completed"],
+        fixpoint=a["fixpoint"],
+        d_executions=d["executions"],
+        d_inputs=d["items"],
+        a_roots=a["roots"],
+        a_inputs=AModel(ctx.tier).inputs,
+        thresholds=LEVELS,
+        membrane_channels=M_CHANNELS,
+        validator_sets=list(VSETS),
+    )
+    if a["capped"]:
+        ctx.coverage["caps_hit"] = f"engine A stopped at {a['states']} states (depth {a['depth_completed']} complete)"
+    ctx.note("reading: replay-memory and rate-limit short-circuits report CRITICAL with no matched signature by "
+             "design; 'threat level = max over matched' is asserted for scan decisions only")
+    ctx.note("reading: 'at most rate_limit admitted per window' is asserted on allowed=True results in (t-60, t]; the "
+             "stronger reading (requests passing the rate check, including ones the scan then blocks) is what the "
+             "code implements and is not separately asserted")
+    ctx.note("reading: re-learning/importing a pattern replaces the earlier entry for the same pattern (latest level wins)")
+    ctx.note("not exercised: built-in regex <\\|.*\\|> is quadratic on '<|'*50000 (minutes); totality, not latency, is the claim")
+    ctx.assumptions += [
+        "characters whose case folding differs between str.lower() and re.IGNORECASE (U+017F, U+212A, U+0130, ...) are "
+        "don't-care and never enumerated; inputs use ASCII + a small set of non-ASCII characters with 1:1 case maps, "
+        "control characters and lone surrogates",
+        "the reference regex matcher is cross-checked against re.compile(p, re.I).search on every evaluated pair",
+        "validator reference is one-directional: only inputs the documented rule must reject are asserted "
+        "(JSON: invalid by RFC 8259 grammar, nesting > max_depth, size > max_size; NaN/Infinity are don't-care)",
+        "engine A: 6 inputs, 2 learnable patterns, 1 custom signature, advances {1,59,61} s, rate_limit in {None,0,1,2}",
+    ]
+
+
+def replay(ctx, case):
+    if case.get("engine") == "D":
+        spec = _unspec(case["spec"])
+        if case["gate"] == "M":
+            v, out, _ = eval_membrane(case["threshold"], case["channel"], spec)
+        else:
+            v, out, _ = eval_innate(case["threshold"], case["channel"], case.get("vset"), spec)
+        print("  outcome:", out)
+        return v
+    return explore.replay_case(AModel(ctx.tier), case)
+
+
+def _unspec(spec):
+    return [p if isinstance(p, str) else list(p) for p in spec]
